@@ -124,6 +124,14 @@ def tangent_at_I(um, nstate=0):
     return np.broadcast_to(A, (3, 3, 3, 3, 2, 1))[..., 0, 0], P[..., 0, 0]
 
 
+# default parameters documented for the model functions (docstrings / .kwargs of felupe.constitution.<model>)
+DEFAULTS = dict(
+    blatz_ko=dict(mu=0), extended_tube=dict(Gc=0, Ge=0, beta=1, delta=0), miehe_goektepe_lulei=dict(mu=0, N=100, U=0, p=2, q=2),
+    mooney_rivlin=dict(C10=0, C01=0), neo_hooke=dict(mu=0), storakers=dict(mu=[0], alpha=[2], beta=[1]),
+    third_order_deformation=dict(C10=0, C01=0, C11=0, C20=0, C30=0), van_der_waals=dict(mu=0, beta=0, a=0, limit=100), yeoh=dict(C10=0, C20=0, C30=0),
+)
+
+
 def run(case):
     import felupe as fem
     import felupe.constitution as C
@@ -173,6 +181,30 @@ def run(case):
                     for kk, v0 in keep.items():
                         if not np.array_equal(np.asarray(kw2[kk], dtype=float), v0):
                             c.bad(f"params{k}/{clab}/{backend}/parameter-mutated/{kk}", "the caller's parameter object was modified by evaluating the material", np.asarray(kw2[kk], dtype=float).tolist(), v0.tolist(), 0)
+        # construction histories: after the materials above were built with complete parameter sets, build both back ends with
+        # only the FIRST parameter given -- the others take the defaults the model function documents (table below, copied
+        # from the documentation); nothing of an earlier construction may leak into a later one, in either back end
+        if n in DEFAULTS and not any(isinstance(v_, list) for v_ in DEFAULTS[n].values()):  # (list-valued parameter sets must be given completely: equal lengths)
+            kw_last = models.TT_PARAMS[n][-1]
+            first = next(iter(kw_last))
+            part = {first: kw_last[first]}
+            full = {**DEFAULTS[n], **part}
+            try:
+                ref_m = fem.Hyperelastic(getattr(C, n), **full)
+                P_ref, A_ref = np.asarray(ref_m.gradient([F, sv])[0], float), np.asarray(ref_m.hessian([F, sv])[0], float)
+                for backend, mk in (("tt", lambda: fem.Hyperelastic(getattr(C, n), **part)), ("jax", lambda: CJ.Hyperelastic(getattr(CJ.models.hyperelastic, n), **part))):
+                    for rep in ("first", "second"):  # (two constructions one after another)
+                        m3 = mk()
+                        c.trans += 2
+                        tl = max(tol, 1e-10) * (10 if backend == "jax" else 1)
+                        c.cmp(f"defaults/{backend}/{rep}/stress", f"material built with only {first} given (other parameters at their documented defaults) after materials with complete parameter sets", m3.gradient([F, sv])[0], P_ref, tl, labels)
+                        c.cmp(f"defaults/{backend}/{rep}/elasticity", f"elasticity of the material built with only {first} given", m3.hessian([F, sv])[0], A_ref, tl * 10)
+            except Exception as ex:  # noqa
+                c.notes.append(f"{n}: defaults clause not evaluated: {ex!r}"[:160])
+            for backend, fn_ in (("tt", getattr(C, n)), ("jax", getattr(CJ.models.hyperelastic, n))):
+                cur = getattr(fn_, "kwargs", None)
+                if cur is not None and {k_: np.asarray(v_).tolist() for k_, v_ in cur.items()} != {k_: np.asarray(v_).tolist() for k_, v_ in DEFAULTS[n].items()}:
+                    c.bad(f"defaults/{backend}/model-kwargs", "the documented default parameters attached to the model function were modified by constructing materials", {k_: np.asarray(v_).tolist() for k_, v_ in cur.items()}, {k_: np.asarray(v_).tolist() for k_, v_ in DEFAULTS[n].items()}, 0)
         return c.result(dict(case=case["key"], lattice_points=int(F.shape[2]), parameter_sets=len(models.TT_PARAMS[n])))
     if kind == "morph":
         a = C.tensortrax.Material(C.tensortrax.models.lagrange.morph, p=models.MORPH_P, nstatevars=13)
